@@ -293,11 +293,11 @@ def c09_units(tier):
     for u in c05_units(tier, 'san', 'C09', [('k1', 12), ('fixed', 2)] + ([('uu', 32), ('k2v', 64)] if th else [])):
         u['name'] = 'c05-' + u['name']
         us.append(u)
-    # memcheck pass: the exact harnesses (no sanitizer) under valgrind, which sees reads of uninitialised storage of ANY
+    # memcheck pass (auxiliary; vg-c03 runs every 8th, vg-c07 every 2nd case of the quick space): the exact harnesses (no sanitizer) under valgrind, which sees reads of uninitialised storage of ANY
     # type (indices, sizes, flags), not only of the scalar type; errors are attributed to the case in flight
     VG = ['valgrind', '-q', '--error-exitcode=0', '--undef-value-errors=yes', '--track-origins=no', '--num-callers=12']
-    for name, src, a in [('vg-c02', 'checks/c02_eval.cpp', []), ('vg-c04', 'checks/c04_primitive.cpp', []), ('vg-c03', 'checks/c03_arith.cpp', ['--part', 'e1']),
-                         ('vg-c13', 'checks/c13_support.cpp', []), ('vg-c07', 'checks/c07_linear.cpp', [])] + ([('vg-c06', 'checks/c06_bilinear.cpp', []), ('vg-c01', 'checks/c01_generator.cpp', [])] if th else []):
+    for name, src, a in [('vg-c02', 'checks/c02_eval.cpp', []), ('vg-c04', 'checks/c04_primitive.cpp', []), ('vg-c03', 'checks/c03_arith.cpp', ['--part', 'e1', '--stride', '8']),
+                         ('vg-c13', 'checks/c13_support.cpp', []), ('vg-c07', 'checks/c07_linear.cpp', ['--stride', '2'])] + ([('vg-c06', 'checks/c06_bilinear.cpp', []), ('vg-c01', 'checks/c01_generator.cpp', [])] if th else []):
         v = unit(name, src, 'o0', args=a + ['--tier', 'quick'], flags=['-g', '-DVF_VALGRIND'])   # -O0: locals live in memory, so memcheck sees uninitialised ones;   # always the quick space: memcheck is 30-50x slower
         v['wrap'] = VG
         us.append(v)
